@@ -615,6 +615,21 @@ def expected_simple(sc, res):
             h = sc["bytes_hex"].lower()
             return {"to_hex": h, "display": h, "display_specs_same": True, "debug": 'Hash("%s")' % h, "as_bytes": h, "as_slice": h,
                     "into_array": h, "back_same": True, "upper_same": True, "from_same": True}
+        if op == "serde":
+            if res and res.get("skipped") is True:
+                return {}
+            b = bytes.fromhex(sc["bytes_hex"])
+            ok = len(b) == 32
+            e = {"json_accepted": ok}
+            # (ciborium does not notice trailing items of an over-long array or byte string - a property of that
+            # library, not of this crate: only inputs of at most 32 bytes are judged through it)
+            if len(b) <= 32:
+                e["cbor_accepted"] = ok
+                e["bytes_accepted"] = ok
+            if ok:
+                e.update({"json_out_hex": b.hex(), "cbor_out_hex": b.hex(), "bytes_out_hex": b.hex(),
+                          "to_json": "[" + ",".join(str(x) for x in b) + "]"})
+            return e
         if op == "from_slice":
             b = bytes.fromhex(sc["bytes_hex"])
             e = {"accepted": len(b) == 32}
@@ -1064,6 +1079,16 @@ def fam_hex(rng):
     return out
 
 
+def fam_serde(rng):
+    out = []
+    good = bytes(rng.randrange(256) for _ in range(32))
+    for n in (0, 1, 2, 3, 16, 31, 32, 33, 40, 64):
+        out.append({"kind": "hex", "op": "serde", "bytes_hex": (good * 2)[:n].hex()})
+    for b in (bytes(32), b"\xff" * 32, b"\xfe" * 32, bytes(range(32)), bytes(range(224, 256))):
+        out.append({"kind": "hex", "op": "serde", "bytes_hex": b.hex()})
+    return out
+
+
 def fam_guts(rng):
     out = [{"kind": "guts", "op": "consts"}]
     for n in (0, 1, 63, 64, 65, 127, 128, 129, 1000, 1023, 1024):
@@ -1235,6 +1260,7 @@ FAMILIES = {
     "platform": (fam_platform, ()),
     "zeroize": (fam_zeroize, ("zeroize",)),
     "debug": (fam_debug, ()),
+    "serde": (fam_serde, ("serde",)),
 }
 
 
@@ -1253,7 +1279,8 @@ TABLE = [
     (r"^crate::platform::", ["platform", "oneshot", "xof", "incremental"], SIMD_ALL,
      ("portable", "detect", "sse2", "sse41", "avx2")),
     (r"^crate::(counter_low|counter_high)", ["platform", "xof", "oneshot"], GENERAL, ("portable", "detect")),
-    (r"^crate::Hash::|^crate::HexError|^crate::HexErrorInner", ["hex"], ["default"], ()),
+    (r"^crate::Hash::(Deserialize|Serialize)|serde", ["serde", "hex"], ["default"], ()),
+    (r"^crate::Hash::|^crate::HexError|^crate::HexErrorInner", ["hex", "serde"], ["default"], ()),
     (r"^crate::guts::", ["guts", "oneshot"], GENERAL, ()),
     (r"[Zz]eroize", ["zeroize"], ["default"], ()),
     (r"Debug__fmt|::fmt$|Debug", ["debug"], ["default"], ()),
